@@ -279,6 +279,8 @@ func (in *Interp) callValue(fv V, args []V) V {
 		return in.callClosure(f, args)
 	case *Bound:
 		return in.call(f.Fn, append([]V{f.Recv}, args...), false)
+	case *NativeFn:
+		return f.f(in, args)
 	case nil:
 		panic(goPanic{Str{S: "call of nil func"}})
 	}
@@ -677,6 +679,9 @@ func (in *Interp) invokePrepared(fr *frame, c *ssa.CallCommon, fnv V, args []V, 
 		}
 		if _, isOp := ifc.V.(Opaque); isOp {
 			return zeroSig(c.Signature())
+		}
+		if cv, isCtx := ifc.V.(*CtxV); isCtx {
+			return in.ctxMethod(cv, c.Method.Name(), c.Signature())
 		}
 		if ev, isErr := ifc.V.(*ErrVal); isErr {
 			switch c.Method.Name() {
@@ -1101,10 +1106,20 @@ func (in *Interp) eq(a, b V) Bool {
 			return Bool{C: false}
 		case *Closure:
 			return Bool{C: y == nil}
+		case *NativeFn:
+			return Bool{C: y == nil}
+		case *ssa.Function:
+			return Bool{C: y == nil}
+		case *Bound:
+			return Bool{C: y == nil}
 		case *ChanV:
 			return Bool{C: y == nil}
 		}
 	case *Closure:
+		return Bool{C: b == nil && x == nil}
+	case *NativeFn:
+		return Bool{C: b == nil && x == nil}
+	case *Bound:
 		return Bool{C: b == nil && x == nil}
 	case *ssa.Function:
 		return Bool{C: b == nil && x == nil}
@@ -1233,6 +1248,9 @@ func (in *Interp) typeAssert(fr *frame, x *ssa.TypeAssert) V {
 			}
 			if _, isErr := ifc.V.(*ErrVal); isErr {
 				ok = x.AssertedType.String() == "error"
+			}
+			if _, isCtx := ifc.V.(*CtxV); isCtx {
+				ok = x.AssertedType.String() == "context.Context"
 			}
 		}
 		res = ifc
